@@ -235,6 +235,43 @@ impl IncompleteTransfer {
         final(self).performative == old(self).performative, final(self).section_number == old(self).section_number, final(self).section_offset == old(self).section_offset,
 //@@ end
 }
+// ---- IncompleteTransfer::position_of_section_number_and_offset itself (R34: three byte iterators over the buffered frames, zipped, as an index loop) ----
+/// the offset counter after the first k octets: the distance from the last section header that starts before k (k itself if there is none)
+pub open spec fn off_at(s: Seq<u8>, k: int) -> int decreases k { if k <= 0 { 0 } else if hdr_at(s, k - 1) { 0 } else { off_at(s, k - 1) + 1 } }
+/// after octet i the walk stands at section `n`, offset `o`
+pub open spec fn stands_at(s: Seq<u8>, i: int, n: u32, o: u64) -> bool { hdr_count(s, i + 1) == n && off_at(s, i + 1) == o }
+pub proof fn lemma_off_bounds(s: Seq<u8>, k: int)
+    requires 0 <= k,
+    ensures 0 <= off_at(s, k) <= k,
+    decreases k,
+{ if k > 0 { lemma_off_bounds(s, k - 1); } }
+/// the flattened view of the buffered frames, octet by octet (`as_byte_iterator()` of a Vec<Payload>)
+#[verifier::external_body]
+pub fn buf_len(b: &Vec<Payload>) -> (r: usize) ensures r == concat(b@).len() { unimplemented!() }
+#[verifier::external_body]
+pub fn buf_byte_at(b: &Vec<Payload>, i: usize) -> (r: u8) requires i < concat(b@).len() ensures r == concat(b@)[i as int] { unimplemented!() }
+impl IncompleteTransfer {
+//@@ fn file=fe2o3-amqp/src/link/incomplete_transfer.rs impl=`impl IncompleteTransfer` name=position_of_section_number_and_offset as=position_real id=IncompleteTransfer::position_of_section_number_and_offset
+//@@ shape loops=for
+//@@ subst `let b0 = self.buffer.as_byte_iterator(); let b1 = self.buffer.as_byte_iterator().skip(1); let b2 = self.buffer.as_byte_iterator().skip(2); let iter = b0.zip(b1.zip(b2));` => `let __len = buf_len(&self.buffer); let __n: usize = if __len >= 2 { __len - 2 } else { 0 };` rule=R34
+//@@ subst `for (i, (&b0, (&b1, &b2))) in __it0: iter.enumerate() {` => `for i in __it0: 0..__n { let b0 = buf_byte_at(&self.buffer, i); let b1 = buf_byte_at(&self.buffer, i + 1); let b2 = buf_byte_at(&self.buffer, i + 2);` rule=R34
+//@@ subst `let mut cur_number = 0;` => `let mut cur_number: u32 = 0;` rule=optional-R5
+//@@ subst `let mut cur_offset = 0;` => `let mut cur_offset: u64 = 0;` rule=optional-R5
+//@@ loop 0
+        invariant
+            __len == concat(self.buffer@).len(), __n == (if __len >= 2 { __len - 2 } else { 0 }), __len < 0x1_0000_0000,
+            cur_number as int == hdr_count(concat(self.buffer@), i as int), cur_offset as int == off_at(concat(self.buffer@), i as int), i <= __n,
+            forall|j: int| 0 <= j < i ==> !stands_at(concat(self.buffer@), j, section_number, section_offset),
+//@@ loopstart 0
+            proof { lemma_hdr_bounds(concat(self.buffer@), i as int); lemma_off_bounds(concat(self.buffer@), i as int); }
+//@@ spec
+    requires concat(self.buffer@).len() < 0x1_0000_0000,     // ASSUMED: a delivery buffers fewer than 2^32 bytes
+    ensures
+        r is Some ==> r->Some_0 + 2 < concat(self.buffer@).len() && stands_at(concat(self.buffer@), r->Some_0 as int, section_number, section_offset),       // [C10.state.position-is-inside-the-buffer] [C15.state.position-is-inside-the-buffer] the position reported for the section number / offset the peer names lies inside what has been buffered, and the walk -- a section header resets the offset and counts a section -- stands exactly there
+        r is Some ==> forall|j: int| 0 <= j < r->Some_0 ==> !stands_at(concat(self.buffer@), j, section_number, section_offset),       // (the first such position)
+        r is None ==> forall|j: int| 0 <= j && j + 2 < concat(self.buffer@).len() ==> !stands_at(concat(self.buffer@), j, section_number, section_offset),       // [C10.state.no-position-means-none-exists] "not found" is reported only when no octet of the buffer stands at that section number / offset
+//@@ end
+}
 // ---- the link endpoint as seen by ReceiverInner ----
 pub struct Delivery { pub performative: Transfer, pub bytes: Ghost<Seq<u8>>, pub section_number: u32, pub section_offset: u64 }
 pub trait PayloadSrc: Sized { spec fn src_bytes(&self) -> Seq<u8>; }
